@@ -107,15 +107,10 @@ type placementStaticPath struct {
 
 // Check the ACL
 func checkACL(acl string) error {
-	// trim any white space
-	acl = strings.TrimSpace(acl)
-	// handle special cases: deny and wildcard
-	if len(acl) == 0 || acl == common.Wildcard {
-		return nil
-	}
-
+	// The ACL is parsed when the queue is created by splitting the unmodified string on a single space:
+	// use the same rule here, otherwise an ACL passes the validation and fails the load.
 	// should have no more than two groups defined
-	fields := strings.Fields(acl)
+	fields := strings.Split(acl, common.Space)
 	if len(fields) > 2 {
 		return fmt.Errorf("multiple spaces found in ACL: '%s'", acl)
 	}
@@ -647,6 +642,14 @@ func checkQueues(queue *QueueConfig, level int) error {
 	err = checkLimits(queue.Limits, queue.Name, queue)
 	if err != nil {
 		return err
+	}
+
+	// check the resources of the child template: they are parsed when the template is created
+	if _, err = resources.NewResourceFromConf(queue.ChildTemplate.Resources.Max); err != nil {
+		return fmt.Errorf("invalid max resource in child template of queue %s: %w", queue.Name, err)
+	}
+	if _, err = resources.NewResourceFromConf(queue.ChildTemplate.Resources.Guaranteed); err != nil {
+		return fmt.Errorf("invalid guaranteed resource in child template of queue %s: %w", queue.Name, err)
 	}
 
 	// check this level for name compliance and uniqueness
